@@ -139,6 +139,7 @@ func run(c *vf.Ctx) {
 	c.Assume("go-git has no pluggable verifier: the payload is Commit/Tag.EncodeWithoutSignature and the signature is the Signature field, exactly the two inputs of Commit.Verify / Tag.Verify")
 	c.Assume("acceptance itself is not compared (the stub accepts everything); equality of (payload, signature) pairs and of 'no signature => verifier not called' is")
 	c.Assume("objects on which git verify-commit/verify-tag dies before reaching the verifier although a signature header exists (unknown signature format) are not judged")
+	c.Assume("for mutated structs the signature is compared modulo one final LF (struct field vs. header re-parsed by git)")
 	c.Assume("for mutated structs the reference is git verifying the object go-git itself encodes from the mutated struct")
 }
 
@@ -470,7 +471,9 @@ func side(c *vf.Ctx, g *gitx.Git, bin, fname string, idLen, nCommits, nTags int)
 		} else if !bytes.Equal(payload, k.gitPayload) {
 			k.fails["payload"] = fmt.Sprintf("payload differs: go-git %s, git hands its verifier %s", vf.Q(payload), vf.Q(k.gitPayload))
 		}
-		if sig != string(k.gitSig) {
+		if mutOf[k] != nil && strings.TrimSuffix(sig, "\n") == strings.TrimSuffix(string(k.gitSig), "\n") {
+			// struct field vs. re-parsed header: a final LF is added by the header syntax itself
+		} else if sig != string(k.gitSig) {
 			if k.kind == "commit" && fname == "sha256" && sig256 == string(k.gitSig) {
 				k.fails["signature-sha256-repo-uses-gpgsig-sha256"] = fmt.Sprintf("in a SHA-256 repository git verifies the gpgsig-sha256 header (%q); go-git's Commit.Verify uses Commit.Signature = %q (gpgsig) and keeps git's signature in SignatureSHA256", k.gitSig, sig)
 			} else {
@@ -569,6 +572,10 @@ func report(c *vf.Ctx, cases []*kase) {
 		}
 		sort.Strings(cls)
 		for _, cl := range cls {
+			what := k.fails[cl]
+			if cl == "signature-where-git-has-none" && len(k.perts) == 1 && k.perts[0] == "gpgsig-no-space-line" && k.origin == "generated" {
+				cl = "signature" // same root cause as the known bare-"gpgsig"-line finding: the empty line is all go-git has
+			}
 			origin := ""
 			if k.origin != "generated" {
 				origin = ":" + k.origin
@@ -604,9 +611,9 @@ func report(c *vf.Ctx, cases []*kase) {
 				key = fmt.Sprintf("%s:%s%s:combo:%s", cl, k.kind, origin, strings.Join(ps, "+"))
 			}
 			if os.Getenv("VERIF_DEBUG") != "" {
-				fmt.Fprintf(os.Stderr, "DBG %s :: %s :: raw=%s\n", key, k.fails[cl], vf.Q(k.raw))
+				fmt.Fprintf(os.Stderr, "DBG %s :: %s :: raw=%s\n", key, what, vf.Q(k.raw))
 			}
-			c.Fail(key, fmt.Sprintf("%s %s (%s, %s; base %v; perturbations %v): %s", k.kind, k.id, k.fname, k.origin, k.feat, k.perts, k.fails[cl]),
+			c.Fail(key, fmt.Sprintf("%s %s (%s, %s; base %v; perturbations %v): %s", k.kind, k.id, k.fname, k.origin, k.feat, k.perts, what),
 				map[string]any{"kind": k.kind, "format": k.fname, "origin": k.origin, "raw": vf.Q(k.raw), "raw_hex": vf.Hex(k.raw), "perturbations": k.perts, "clause": cl})
 		}
 	}
